@@ -61,7 +61,7 @@ def run(tier, seed):
         "Go string comparison is bytewise; map[string]any is represented by its key-sorted association list "
         "(the decoder checks that the harness' keys are strictly ascending in the model's bytewise order)",
         "sort.SliceStable returns the stable ordered permutation when less is a strict weak order (modelled by a stable "
-        "insertion sort; C11_stable_sort_unique proves that permutation unique); sort.Search is the binary search of its source",
+        "insertion sort; C11_stable_sort_unique_thm proves that arrangement unique); sort.Search is the binary search of its source",
         "values outside the domain (NaN, |float| >= 2^53, infinities) are compared model-vs-implementation only; "
         "the sort-based builtins are exercised on in-domain arrays only",
     ]
@@ -88,15 +88,34 @@ def run(tier, seed):
 
 
 def replay(path):
+    """re-run the recorded case on the CURRENT implementation (harness stream c11case) and judge what it
+    does now by the model and by the specification order; exit 1 when it still fails"""
     d = json.load(open(path))
-    print(json.dumps(d, indent=1))
     case = d.get("case")
-    if not case:
-        return 1
+    print("recorded: kind=%s what=%s\ncase: %s" % (d.get("kind"), d.get("what"), case))
+    if not case or not case.startswith("("):
+        print("no replayable case recorded (broken obligation); re-running the check")
+        return run("quick", d.get("seed", 1))
+    exe_h, hlog = V.build_harness("c11")
     exe_m, mlog = model_exe()
-    if exe_m and case.startswith("("):
-        for wrap in (case, "(spec " + case + ")"):
-            rc, out = V.sh([exe_m], stdin=(wrap + "\n").encode())
-            print("recorded case judged by the model%s: %s" % (" (spec)" if wrap != case else "", out.strip()))
-    print("re-running the streams with the recorded seed:", d.get("seed"))
-    return run("quick", d.get("seed", 1))
+    if exe_h is None or exe_m is None:
+        print(V.tail(hlog if exe_h is None else mlog, 30))
+        return 1
+    rc, out, cases, st = V.run_harness("c11", "c11case", d.get("seed", 1), 0, "quick", extra=[case], name="c11replay")
+    if rc != 0:
+        print(V.tail(out, 20))
+        return 1
+    bad = 0
+    for v in (st.get("impl_violations") or []):
+        print("implementation still violates the order law:", v)
+        bad += 1
+    lines = [l for l in open(cases).read().split("\n") if l]
+    for l in lines:
+        for wrap, label in ((l, "model"), ("(spec " + l + ")", "spec")):
+            rc, o = V.sh([exe_m], stdin=(wrap + "\n").encode())
+            o = o.strip()
+            print("now: %s\n  %s verdict: %s" % (l, label, o))
+            if o != "ok":
+                bad += 1
+    print("REPLAY: %s" % ("still failing" if bad else "passes now"))
+    return 1 if bad else 0
